@@ -18,7 +18,8 @@ def sizeCfg (path : Path) (appendMode : Bool) (N : Nat) (roll : RollFn) : Cfg Un
 /-- At every policy consultation of every history — whatever the trigger and the roller — the
 length shown to the policy (`len_estimate()`) equals the true size of the active file on disk at
 that moment: append mode seeds the counter from the pre-existing size, truncate mode empties the
-file and starts from 0, and after every (re)open the same holds. -/
+file at the appender's first open and starts from 0, and every later reopen (after a roll, failed
+or not) seeds the counter from the size found. -/
 theorem C06_len_is_disk_size (cfg : Cfg σ) (d : Disk) (t0 : σ) (now : Nat) (ops : List Op) :
     ∀ e ∈ trace cfg (init cfg d t0 now) ops, ∀ out, e.1 = some out → ∃ L, out.consult = some (L, L) := by
   refine trace_forall cfg (P := WF cfg) (Q := fun e => ∀ out, e.1 = some out → ∃ L, out.consult = some (L, L))
@@ -44,7 +45,7 @@ theorem C06_rolls_iff_exceeds (path : Path) (am : Bool) (N : Nat) (roll : RollFn
     (append (sizeCfg path am N roll) s r fault).1.consult = some (L, L) ∧
     ((append (sizeCfg path am N roll) s r fault).1.rolled.isSome ↔ L > N) := by
   intro L
-  obtain ⟨hc, _, _, hno, _, hyes⟩ :=
+  obtain ⟨hc, _, _, _, hno, _, hyes⟩ :=
     append_post_spec (sizeCfg path am N roll) s r fault hwf rfl _ _
       (append (sizeCfg path am N roll) s r fault).1 (append (sizeCfg path am N roll) s r fault).2 rfl rfl rfl
   have hL : (openView (sizeCfg path am N roll) s ++ encBytes r).length = L := by simp [L]
@@ -99,7 +100,7 @@ theorem C06_bounded_after_append (path : Path) (am : Bool) (N : Nat) (roll : Rol
     intro out h hok
     simp only [applyOp] at h ⊢
     have hout := (Option.some.inj h).symm
-    obtain ⟨_, _, _, hno, herr, hyes⟩ :=
+    obtain ⟨_, _, _, _, hno, herr, hyes⟩ :=
       append_post_spec (sizeCfg path am N roll) s r (faultFn f) hwf rfl _ _
         (append (sizeCfg path am N roll) s r (faultFn f)).1 (append (sizeCfg path am N roll) s r (faultFn f)).2 rfl rfl rfl
     by_cases hgt : (openView (sizeCfg path am N roll) s ++ encBytes r).length > N
@@ -130,7 +131,7 @@ theorem C06_rollers_honour_contract (path : Path) (r : RollerCfg) (h : r.nameOf 
 empties the file -/
 theorem C06_open_seeds_len (cfg : Cfg σ) (d : Disk) (t0 : σ) (now : Nat) :
     Opened cfg (init cfg d t0 now) (if cfg.appendMode then fileOf cfg d else []) := by
-  have h := (getWriter_spec cfg { disk := d, writer := none, tst := cfg.trig.reinit t0 now, now := now } (Or.inl rfl)).1
+  have h := (getWriter_spec cfg { disk := d, writer := none, tst := cfg.trig.reinit t0 now, now := now, opened := false } (Or.inl rfl)).1
   simpa [openView, init, build] using h
 
 /-! ### non-vacuity (tests on samples) -/
